@@ -173,11 +173,25 @@ func (h *NFSProcedureHandler) handleFsinfo(body io.Reader, reply *RPCReply, auth
 		return nfsErrorWithPostOp(reply, NFSERR_IO), nil
 	}
 
-	binary.Write(&buf, binary.BigEndian, uint32(1048576))       // rtmax
-	binary.Write(&buf, binary.BigEndian, uint32(65536))         // rtpref
+	// Advertise what READ and WRITE actually accept: the configured transfer
+	// size, kept below the RPC record limit so that a WRITE of wtmax bytes
+	// (plus its header) still fits into one record.
+	maxIO := uint32(65536)
+	if ts := h.server.handler.tuning.Load().TransferSize; ts > 0 {
+		maxIO = uint32(ts)
+	}
+	if limit := uint32(DefaultMaxRecordSize - 4096); maxIO > limit {
+		maxIO = limit
+	}
+	prefIO := uint32(65536)
+	if prefIO > maxIO {
+		prefIO = maxIO
+	}
+	binary.Write(&buf, binary.BigEndian, maxIO)                 // rtmax
+	binary.Write(&buf, binary.BigEndian, prefIO)                // rtpref
 	binary.Write(&buf, binary.BigEndian, uint32(4096))          // rtmult
-	binary.Write(&buf, binary.BigEndian, uint32(1048576))       // wtmax
-	binary.Write(&buf, binary.BigEndian, uint32(65536))         // wtpref
+	binary.Write(&buf, binary.BigEndian, maxIO)                 // wtmax
+	binary.Write(&buf, binary.BigEndian, prefIO)                // wtpref
 	binary.Write(&buf, binary.BigEndian, uint32(4096))          // wtmult
 	binary.Write(&buf, binary.BigEndian, uint32(8192))          // dtpref (C1: uint32 not uint64)
 	binary.Write(&buf, binary.BigEndian, uint64(1099511627776)) // maxfilesize
